@@ -111,6 +111,7 @@ def render(x):
 # --------------------------------------------------------------------------------------------------------------------
 CONTAINERS_QUICK = ('nd', 'list', 'view')
 CONTAINERS_THOROUGH = ('nd', 'list', 'view', 'forder', 'negstride', 'f32')
+SCALES_THOROUGH = (1.0, 1e-3, 1e3)      # magnitude of the non-normalised inputs (non-unit quaternions, axes, acc / mag samples, reference vectors)
 
 
 def contain(x, kind):
@@ -136,26 +137,27 @@ def contain(x, kind):
 # values (deterministic, derived from menu entry k); every attribute access returns a fresh copy
 # --------------------------------------------------------------------------------------------------------------------
 class Values:
-    def __init__(self, k):
+    def __init__(self, k, scale=1.0):
         M = A.MENU
         n = len(M)
         q, p, r, s = (np.array(M[(k + j) % n]) for j in (0, 3, 5, 6))
         d = {}
         d['q'], d['p'], d['r'] = q, p, r
-        d['qn'], d['pn'] = 2.5 * q, 0.4 * p
+        d['qn'], d['pn'] = 2.5 * scale * q, 0.4 * scale * p
         d['pneg'] = -p if float(q @ p) >= 0 else p          # obtuse partner of q (dot < 0)
         d['pacu'] = p if float(q @ p) >= 0 else -p           # acute partner
         d['Q'] = np.array([q, p, r, s])
-        d['Qn'] = np.array([2.5 * q, 0.4 * p, 3.0 * r, 1.5 * s])
+        d['Qn'] = scale * np.array([2.5 * q, 0.4 * p, 3.0 * r, 1.5 * s])
         Qj = np.array([q, rq.qunit(q + 0.05 * p), -rq.qunit(q + 0.1 * p), -rq.qunit(q + 0.15 * p), rq.qunit(q + 0.2 * p)])
         d['Qjump'] = Qj                                      # smooth history with a sign-flipped run (rows 2-3)
         Qnan = np.array([q, rq.qunit(q + 0.05 * p), rq.qunit(q + 0.1 * p), rq.qunit(q + 0.15 * p), rq.qunit(q + 0.2 * p)])
+        d['Qsmooth'] = Qnan.copy()
         Qnan[2] = np.nan
         d['Qnan'] = Qnan
         Qnj = Qj.copy(); Qnj[1] = np.nan
         d['Qnanjump'] = Qnj                                  # NaN gap AND a sign flip after it
         Rq = rq.R(q)
-        g = np.array([0.0, 0.0, 9.81]); b = np.array([19.1, 1.7, 43.2])
+        g = scale * np.array([0.0, 0.0, 9.81]); b = scale * np.array([19.1, 1.7, 43.2])
         d['acc'], d['mag'] = Rq.T @ g, Rq.T @ b
         d['gyr'] = np.array([0.11, -0.23, 0.31]) + 0.1 * q[1:]
         Rs = np.array([rq.R(x) for x in d['Q']])
@@ -169,22 +171,23 @@ class Values:
         d['ANG'] = np.array([1.2 * x[1:] for x in d['Q']])
         d['ANGD'] = d['ANG'] * 180.0 / math.pi
         d['axis'] = rq.qunit(q[1:]) if hasattr(rq, 'qunit') else q[1:] / np.linalg.norm(q[1:])
-        d['axisn'] = 3.0 * q[1:]
+        d['axisn'] = 3.0 * scale * q[1:]
         d['v'] = np.array([0.3, -1.2, 2.5]) + q[1:]
         d['V3N'] = (np.array([[0.3, -1.2, 2.5], [1.0, 0.5, -0.25], [2.0, -3.0, 0.125], [0.7, 0.1, 0.9]]) + q[1:]).T   # 3 x N
         d['XYZ'] = np.array([[0.3, -1.2, 2.5], [1.0, 0.5, -0.25], [2.0, -3.0, 0.125], [0.7, 0.1, 0.9]]) + q[1:]       # N x 3
         d['t'] = np.array([0.0, 0.25, 0.5, 1.0])
         d['w2'] = np.array([1.0, 3.0])
         d['w4'] = np.array([1.0, 3.0, 0.5, 2.0])
-        d['mref'] = np.array([19.1, 1.7, 43.2])
-        d['mref4'] = np.array([0.0, 19.1, 1.7, 43.2])
-        d['gref'] = np.array([0.0, 0.0, 2.0])
+        d['mref'] = scale * np.array([19.1, 1.7, 43.2])
+        d['mref4'] = scale * np.array([0.0, 19.1, 1.7, 43.2])
+        d['gref'] = scale * np.array([0.0, 0.0, 2.0])
         d['P4'] = np.diag([2.0, 1.5, 1.0, 0.5])
         d['b0'] = np.array([0.01, -0.02, 0.03])
         d['w0'] = np.array([0.1, -0.2, 0.3])
         d['nan1'] = np.array([1.0, np.nan, np.nan, 2.0, np.nan, 3.0])
         self._d = d
         self.k = k
+        self.scale = scale
 
     def __getattr__(self, name):
         try:
@@ -554,9 +557,18 @@ def _b(V, L, cid):
 @builder('QuaternionArray.slerp_nan')
 def _b(V, L, cid):
     QA = L.QuaternionArray
-    mk = lambda name: (lambda: {'self': QA(getattr(V, name))})
+    def mk(name):
+        def make():
+            X = getattr(V, name)
+            nanrows = np.isnan(X).any(axis=1)
+            X[nanrows] = X[0]
+            Q = QA(X)
+            Q[nanrows] = np.nan            # the documented way to mark drop-outs (docstring of slerp_nan); the buffer is shared with Q.array
+            assert np.isnan(Q.array[nanrows]).all()
+            return {'self': Q}
+        return make
     return [C('self=nan-gap inplace=False', mk('Qnan'), lambda a: a['self'].slerp_nan(inplace=False), tags=('batch',)),
-            C('self=no-nan inplace=False', mk('Q'), lambda a: a['self'].slerp_nan(inplace=False), tags=('batch',)),
+            C('self=no-nan,smooth inplace=False', mk('Qsmooth'), lambda a: a['self'].slerp_nan(inplace=False), tags=('batch',)),
             C('self=nan-gap+sign-jump inplace=False', mk('Qnanjump'), lambda a: a['self'].slerp_nan(inplace=False), tags=('batch',)),
             C('self=sign-jump,no-nan inplace=False', mk('Qjump'), lambda a: a['self'].slerp_nan(inplace=False), tags=('batch',)),
             C('self=nan-gap inplace=True(default)', mk('Qnan'), lambda a: a['self'].slerp_nan(), tags=('batch',), exempt=('self',)),
@@ -852,9 +864,18 @@ def _am_ctor_cases(V, cls, extra=(), single=True, rng=None):
     if single:
         out.append(C('single sample', lambda: {'acc': V.acc, 'mag': V.mag}, lambda a: cls(a['acc'], a['mag']), tags=('nonunit', 'single'), rng=rng))
     out.append(C('batch N=4', lambda: {'acc': V.ACC, 'mag': V.MAG}, lambda a: cls(a['acc'], a['mag']), tags=('nonunit', 'batch'), rng=rng))
+    out.append(C('batch N=1', lambda: {'acc': V.ACC[:1].copy(), 'mag': V.MAG[:1].copy()}, lambda a: cls(a['acc'], a['mag']), tags=('nonunit', 'batch'), rng=rng))
     for label, names, call in extra:
         out.append(C(label, lambda names=names: dict({'acc': V.ACC, 'mag': V.MAG}, **{n: getattr(V, src) for n, src in names}), call, tags=('batch', 'optional-array'), rng=rng))
     return out
+
+
+def _retained(V, cls, kwname, src, rng=None, **ctor_kw):
+    """estimate() on a filter built with a caller-owned optional array: the array stays caller-owned and is judged after every call."""
+    def make():
+        w = getattr(V, src)
+        return {'self': cls(**dict(ctor_kw, **{kwname: w})), kwname: w, 'acc': V.acc, 'mag': V.mag}
+    return C(f'single sample, filter built with caller-owned {kwname}=', make, lambda a: a['self'].estimate(a['acc'], a['mag']), tags=('single', 'optional-array'), keep=(kwname,), rng=rng)
 
 
 def _est_cases(V, mk_self, extra_call=None, rng=None, names=('acc', 'mag')):
@@ -871,8 +892,7 @@ def _b(V, L, cid):
 
 @builder('Davenport.estimate')
 def _b(V, L, cid):
-    return _est_cases(V, lambda: L.F.Davenport()) + [C('single sample, filter with weights=', lambda: {'self': L.F.Davenport(weights=np.array([1.0, 3.0])), 'acc': V.acc, 'mag': V.mag},
-                                                    lambda a: a['self'].estimate(a['acc'], a['mag']), tags=('single',))]
+    return _est_cases(V, lambda: L.F.Davenport()) + [_retained(V, L.F.Davenport, 'weights', 'w2')]
 
 
 @builder('FAMC()', 'SAAM()')
@@ -887,7 +907,7 @@ def _b(V, L, cid):
 @builder('FAMC.estimate', 'SAAM.estimate', 'QUEST.estimate')
 def _b(V, L, cid):
     cls = getattr(L.F, cid.split('.')[0])
-    return _est_cases(V, lambda: cls())
+    return _est_cases(V, lambda: cls()) + ([_retained(V, cls, 'weights', 'w2')] if cid.startswith('QUEST') else [])
 
 
 @builder('FLAE()')
@@ -903,7 +923,7 @@ def _b(V, L, cid):
 @builder('FLAE.estimate')
 def _b(V, L, cid):
     return [C(f'single sample method={m}', lambda: {'self': L.F.FLAE(magnetic_dip=64.0), 'acc': V.acc, 'mag': V.mag}, lambda a, m=m: a['self'].estimate(a['acc'], a['mag'], method=m), tags=('nonunit', 'single'))
-            for m in ('symbolic', 'eig', 'newton')]
+            for m in ('symbolic', 'eig', 'newton')] + [_retained(V, L.F.FLAE, 'weights', 'w2', magnetic_dip=64.0)]
 
 
 @builder('FQA()')
@@ -917,7 +937,7 @@ def _b(V, L, cid):
 
 @builder('FQA.estimate')
 def _b(V, L, cid):
-    return _est_cases(V, lambda: L.F.FQA(mag_ref=np.array([19.1, 1.7, 43.2]))) + [C('acc only', lambda: {'self': L.F.FQA(), 'acc': V.acc}, lambda a: a['self'].estimate(a['acc']), tags=('single',))]
+    return _est_cases(V, lambda: L.F.FQA(mag_ref=np.array([19.1, 1.7, 43.2]))) + [_retained(V, L.F.FQA, 'mag_ref', 'mref')] + [C('acc only', lambda: {'self': L.F.FQA(), 'acc': V.acc}, lambda a: a['self'].estimate(a['acc']), tags=('single',))]
 
 
 @builder('OLEQ()')
@@ -931,7 +951,8 @@ def _b(V, L, cid):
 
 @builder('OLEQ.estimate')
 def _b(V, L, cid):
-    return _est_cases(V, lambda: L.F.OLEQ(magnetic_ref=np.array([19.1, 1.7, 43.2])), rng='np')
+    return _est_cases(V, lambda: L.F.OLEQ(magnetic_ref=np.array([19.1, 1.7, 43.2])), rng='np') + [_retained(V, L.F.OLEQ, 'weights', 'w2', rng='np', magnetic_ref=60.0),
+                                                                                                 _retained(V, L.F.OLEQ, 'magnetic_ref', 'mref', rng='np')]
 
 
 @builder('OLEQ.WW', 'ROLEQ.WW')
@@ -1330,7 +1351,7 @@ def _invoke(call, Aobj):
         return ('exc', type(ex).__name__, str(ex)[:160])
 
 
-def history(ctx, L, cid, entry, case, cont, k):
+def history(ctx, L, cid, entry, case, cont, k, scale=1.0):
     """call, call, call on the same argument objects; returns True when the first call completed."""
     Aobj = case['make']()
     keep = set(case.get('keep', ()))
@@ -1343,7 +1364,7 @@ def history(ctx, L, cid, entry, case, cont, k):
     judged = [n for n in Aobj if _has_array(Aobj[n]) and n not in exempt]
     before = {n: freeze(Aobj[n]) for n in judged}
     before_r = {n: render(Aobj[n]) for n in judged}
-    key0 = f'profile={case["profile"]} container={cont} k={k}'
+    key0 = f'profile={case["profile"]} container={cont} k={k}' + ('' if scale == 1.0 else f' scale={scale:g}')
     rng = case.get('rng')
     _seed_history(L, k)
     first = None
@@ -1375,7 +1396,7 @@ def history(ctx, L, cid, entry, case, cont, k):
     ctx.outcome((cid, case['profile'], cont, first[0] if not case.get('random') else 'random'))
     ctx.cls('history:completed' if ok else 'history:refused')
     if ok and judged:
-        ctx.seen((cid, case['profile'], cont, k))
+        ctx.seen((cid, case['profile'], cont, k, scale))
     if ok:
         ctx.cls(f'group:{entry["group"]}')
         ctx.cls(f'kind:{"method" if entry["kind"] == "classmethod" else entry["kind"]}')
@@ -1396,10 +1417,10 @@ def _cases_for(cid, inv, V, L):
     return None
 
 
-def job_callables(ctx, ids, k):
+def job_callables(ctx, ids, k, scale=1.0):
     L = Lib()
     inv = inventory.discover()
-    V = Values(k)
+    V = Values(k, scale)
     conts = CONTAINERS_THOROUGH if ctx.thorough else CONTAINERS_QUICK
     saved_gen = L.SE.GENERATOR
     status, refused_all, refused_some = {}, {}, {}
@@ -1412,7 +1433,7 @@ def job_callables(ctx, ids, k):
             for case in cases:
                 has_arr = any(type(v) is np.ndarray and v.ndim >= 1 for n, v in case['make']().items() if n not in case.get('keep', ()))
                 for cont in (conts if has_arr else ('nd',)):
-                    ok, why = history(ctx, L, cid, entry, case, cont, k)
+                    ok, why = history(ctx, L, cid, entry, case, cont, k, scale)
                     n_all += 1
                     n_ok += bool(ok)
                     if not ok and cont == 'nd':
@@ -1431,7 +1452,7 @@ def job_callables(ctx, ids, k):
     finally:
         L.SE.GENERATOR = saved_gen
     # Ctx.merge keeps only the first value of a note key, so every job writes under its own key; run() folds them together
-    ctx.notes[f'_job:{k}:{ids[0] if ids else ""}'] = {'status': status, 'refused_all': refused_all, 'refused_some': refused_some}
+    ctx.notes[f'_job:{k}:{scale}:{ids[0] if ids else ""}'] = {'status': status, 'refused_all': refused_all, 'refused_some': refused_some}
 
 
 def run(ctx):
@@ -1444,9 +1465,11 @@ def run(ctx):
     ks = list(range(len(A.MENU))) if ctx.thorough else [A.seed_k(ctx.seed)]
     jobs = []
     nchunks = 16 if ctx.thorough else 48
+    scales = SCALES_THOROUGH if ctx.thorough else (1.0,)
     for k in ks:
-        for lo, hi in core.chunks(len(covered), nchunks):
-            jobs.append(('job_callables', (covered[lo:hi], k)))
+        for scale in scales:
+            for lo, hi in core.chunks(len(covered), nchunks):
+                jobs.append(('job_callables', (covered[lo:hi], k, scale)))
     core.run_jobs(ctx, __name__, jobs)
     hist, ref_all, ref_some = {}, {}, {}
     for key in [x for x in ctx.notes if x.startswith('_job:')]:
@@ -1462,6 +1485,8 @@ def run(ctx):
     ctx.notes['callables_whose_every_profile_was_refused'] = {c: ref_all.get(c, []) for c in never_ok}
     ctx.notes['refused_ndarray_profiles'] = ref_some
     ctx.notes['menu_entries'] = ks
+    ctx.notes['magnitude_scales'] = list(scales)
+    ctx.notes['containers'] = list(CONTAINERS_THOROUGH if ctx.thorough else CONTAINERS_QUICK)
     ctx.notes['inventory_size'] = len(ids)
     ctx.notes['covered_callables'] = len(covered)
     ctx.notes['uncovered_callables'] = uncovered
